@@ -1,7 +1,7 @@
 """C05 - concurrent threads and coroutines never leak action context into each other.
 
 Case = fork-join program (unit 0 = main; other units are threads or asyncio tasks; statements
-enter/exit/log/thread/task/join with occurrence ids) + schedule (list of unit ids).  The real side
+enter/exit/log/create/with/ctx/thread/task/join with occurrence ids; `with h` / `ctx h` use an Action object created by any unit) + schedule (list of unit ids).  The real side
 runs every unit as a real thread / a real asyncio task; each unit executes exactly one statement per
 release (threads: semaphore handshake between logging calls; tasks: parked on a harness-owned future
 at every await point), a controller coroutine releases them in schedule order.  Model:
@@ -21,14 +21,17 @@ THEOREMS = [
 ]
 GENERATED_OBLIGATIONS = ["Generated.actionContext: ContextVar used only through get/set/reset (E7)"]
 RULE = ("fork-join programs: 2-4 units (threads or asyncio tasks, nested spawns allowed), 2-6 logging statements each (enter/exit of own "
-        "actions, messages), every spawned unit joined before the enclosing action ends; schedules: ALL interleavings of small programs "
+        "actions, messages), every spawned unit joined before the enclosing action ends; Action objects are shared between units: blocks "
+        "`with h.context():` on an action of an ancestor that is open during the unit's whole life (several units on the SAME action, "
+        "overlapping), and `with h:` in one unit on an action created for it by its spawner (possibly before the handle exists: the unit waits); schedules: ALL interleavings of small programs "
         "(<= 2 units x <= 3 steps inside the fork), random enabled picks (+ some disabled picks) for larger ones; "
         "non-trivial = >= 1 preemption while the preempted unit is inside an action it entered or inherited; distinct by canonical hash")
 TRUSTED = ["CPython contextvars semantics for threads (fresh context) and asyncio tasks (copy at creation) are modelled (Ctx.step), validated by this run",
            "the controller / handshake of the harness (one statement per release)"]
 ASSUMPTIONS = ["occurrence ids are unique (OccUnique) and every unit is spawned once by a lower-numbered unit",
                "units do not share Action objects across threads (documented as unsupported by eliot)",
-               "thread units spawn/join threads only; task units may spawn/join both"]
+               "thread units spawn/join threads only; task units may spawn/join both",
+               "an Action is entered with `with` at most once overall (eliot keeps that token on the Action); `context()` blocks are unrestricted"]
 EXPLANATION = ("potential-function proof: log ++ future ~ sequential log for every schedule; model tied to the code by comparing, per step, "
                "the unit's current_action() before/after and the emitted message with its parent")
 
@@ -57,16 +60,52 @@ def gen_unit_body(rng, ctr, nlog):
     return out
 
 
+def open_handles(code, pos):
+    """handles of the blocks of `code` that are open at position `pos` (innermost last)"""
+    st = []
+    for x in code[:pos]:
+        if x[0] in ("enter", "with", "ctx"):
+            st.append(x[1])
+        elif x[0] == "exit" and st:
+            st.pop()
+    return st
+
+
+def wrap_segment(rng, code, opener):
+    """insert `opener` ... ["exit"] around a random segment of `code` such that the new block is properly
+    nested and the program stays fork-join; returns the new code or None"""
+    closer = ["exit"]
+    for _ in range(12):
+        a = rng.randrange(len(code) + 1)
+        b = rng.randrange(a, len(code) + 1)
+        new = code[:a] + [opener] + code[a:b] + [closer] + code[b:]
+        st, ok = [], True
+        for x in new:
+            if x[0] in ("enter", "with", "ctx"):
+                st.append(x)
+            elif x[0] == "exit":
+                if not st:
+                    ok = False
+                    break
+                top = st.pop()
+                if (x is closer) != (top is opener):
+                    ok = False
+                    break
+        if ok and not st and joined(new):
+            return new
+    return None
+
+
 def gen_program(rng, nunits, family):
-    """family: 'threads' (all threads) | 'tasks' (all tasks) | 'mixed' (tasks that may spawn threads)"""
+    """family: 'threads' (all threads) | 'tasks' (all tasks) | 'mixed' (tasks that may spawn threads).
+    Units share Action objects: a unit may run a block in the context of an action of an ancestor that is
+    open during its whole life (`ctx h`), and may enter (`with h`) an action its spawner created for it."""
     ctr = itertools.count(1)
     kinds = {0: "thread" if family == "threads" else "task"}
     codes = [None] * nunits
     children = {u: [] for u in range(nunits)}
     for v in range(1, nunits):
-        # parent must be able to spawn this kind
-        cand = [u for u in range(v) if True]
-        u = rng.choice(cand)
+        u = rng.randrange(v)
         if family == "threads" or kinds[u] == "thread":
             k = "thread"
         elif family == "tasks":
@@ -77,16 +116,14 @@ def gen_program(rng, nunits, family):
         children[u].append(v)
     for u in range(nunits):
         body = gen_unit_body(rng, ctr, rng.randint(2, 6))
-        # insert fork ... join pairs at balanced positions: choose a position, spawn, later join at same depth before leaving the action
+        # fork ... join pairs: spawn somewhere, join later at the same depth before leaving the enclosing action
         for v in children[u]:
-            # positions where depth is known
             depth = [0]
             for st in body:
                 depth.append(depth[-1] + (1 if st[0] == "enter" else -1 if st[0] == "exit" else 0))
             i = rng.randrange(len(body) + 1)
             d = depth[i]
             j = i
-            # extend j forward while depth stays >= d
             best = [i]
             while j < len(body) and depth[j + 1] >= d:
                 j += 1
@@ -95,14 +132,43 @@ def gen_program(rng, nunits, family):
             jpos = rng.choice(best)
             body = body[:i] + [[kinds[v], v]] + body[i:jpos] + [["join", v]] + body[jpos:]
         codes[u] = body
-    return dict(codes=codes, family=family, kinds=[kinds[u] for u in range(nunits)])
+    # shared Action objects
+    avail = {0: []}
+    nshared = 0
+    for u in range(nunits):
+        for v in children[u]:
+            job = None
+            if rng.random() < 0.45:
+                job = 1000 + next(ctr)
+                i = next(k for k, st in enumerate(codes[u]) if st[0] in ("thread", "task") and st[1] == v)
+                # before the spawn, or after it (then the other unit has to wait for the handle)
+                at = i if rng.random() < 0.6 else i + 1
+                codes[u] = codes[u][:at] + [["create", job]] + codes[u][at:]
+            i = next(k for k, st in enumerate(codes[u]) if st[0] in ("thread", "task") and st[1] == v)
+            avail[v] = avail[u] + open_handles(codes[u], i)
+            if job is not None:
+                new = wrap_segment(rng, codes[v], ["with", job])
+                if new is None:
+                    new = [["with", job]] + codes[v] + [["exit"]] if joined([["with", job]] + codes[v] + [["exit"]]) else None
+                if new is None:
+                    codes[u] = [st for st in codes[u] if st != ["create", job]]
+                else:
+                    codes[v] = new
+                    nshared += 1
+            for _ in range(2):
+                if avail[v] and rng.random() < 0.5:
+                    new = wrap_segment(rng, codes[v], ["ctx", rng.choice(avail[v])])
+                    if new is not None:
+                        codes[v] = new
+                        nshared += 1
+    return dict(codes=codes, family=family, kinds=[kinds[u] for u in range(nunits)], shared=nshared)
 
 
 def joined(code):
     """Python mirror of Ctx.joinedB [] 0 code"""
     pend, d = [], 0
     for st in code:
-        if st[0] == "enter":
+        if st[0] in ("enter", "with", "ctx"):
             d += 1
         elif st[0] == "exit":
             if any(dv >= d for _v, dv in pend):
@@ -115,77 +181,80 @@ def joined(code):
     return not pend
 
 
-def enabled(codes, pcs, started, u):
+def enabled(codes, pcs, started, u, created=None):
     if u >= len(codes) or not started[u] or pcs[u] >= len(codes[u]):
         return False
     st = codes[u][pcs[u]]
     if st[0] == "join":
         v = st[1]
         return started[v] and pcs[v] >= len(codes[v])
+    if st[0] in ("with", "ctx"):
+        return created is not None and st[1] in created
     return True
 
 
-def advance(codes, pcs, started, u):
+def advance(codes, pcs, started, u, created=None):
     st = codes[u][pcs[u]]
     pcs = list(pcs)
     started = list(started)
     pcs[u] += 1
     if st[0] in ("thread", "task"):
         started[st[1]] = True
-    return pcs, started
+    if created is not None and st[0] in ("enter", "create"):
+        created = created | {st[1]}
+    return pcs, started, created
 
 
 def all_schedules(codes, limit):
     """all maximal schedules (no stutter), DFS, at most `limit`"""
     out = []
 
-    def rec(pcs, started, acc):
+    def rec(pcs, started, created, acc):
         if len(out) >= limit:
             return
-        en = [u for u in range(len(codes)) if enabled(codes, pcs, started, u)]
+        en = [u for u in range(len(codes)) if enabled(codes, pcs, started, u, created)]
         if not en:
             out.append(acc)
             return
         for u in en:
-            p2, s2 = advance(codes, pcs, started, u)
-            rec(p2, s2, acc + [u])
+            p2, s2, c2 = advance(codes, pcs, started, u, created)
+            rec(p2, s2, c2, acc + [u])
 
-    rec([0] * len(codes), [True] + [False] * (len(codes) - 1), [])
+    rec([0] * len(codes), [True] + [False] * (len(codes) - 1), frozenset(), [])
     return out
 
 
 def seq_schedule(codes):
-    """depth-first: a spawned unit runs to its end right where it is spawned"""
-    pcs, started, acc = [0] * len(codes), [True] + [False] * (len(codes) - 1), []
-    stack = [0]
-    while stack:
-        u = stack[-1]
-        if pcs[u] >= len(codes[u]):
-            stack.pop()
-            continue
-        if not enabled(codes, pcs, started, u):
-            break  # cannot happen for fork-join programs
+    """sequential reference: always run the most recently started unit that can run (a spawned unit
+    runs to its end, or until it has to wait for a handle, right where it is spawned)"""
+    pcs, started, created, acc = [0] * len(codes), [True] + [False] * (len(codes) - 1), frozenset(), []
+    order = [0]
+    while True:
+        en = [u for u in reversed(order) if enabled(codes, pcs, started, u, created)]
+        if not en:
+            break
+        u = en[0]
         st = codes[u][pcs[u]]
-        pcs, started = advance(codes, pcs, started, u)
+        pcs, started, created = advance(codes, pcs, started, u, created)
         acc.append(u)
         if st[0] in ("thread", "task"):
-            stack.append(st[1])
+            order.append(st[1])
     return acc
 
 
 def random_schedule(rng, codes):
-    pcs, started, acc = [0] * len(codes), [True] + [False] * (len(codes) - 1), []
+    pcs, started, created, acc = [0] * len(codes), [True] + [False] * (len(codes) - 1), frozenset(), []
     while True:
-        en = [u for u in range(len(codes)) if enabled(codes, pcs, started, u)]
+        en = [u for u in range(len(codes)) if enabled(codes, pcs, started, u, created)]
         if not en:
             break
         if rng.random() < 0.1:
             acc.append(rng.randrange(len(codes)))  # possibly disabled: must stutter
             if acc[-1] in en:
-                pcs, started = advance(codes, pcs, started, acc[-1])
+                pcs, started, created = advance(codes, pcs, started, acc[-1], created)
             continue
         u = rng.choice(en)
-        pcs, started = advance(codes, pcs, started, u)
+        pcs, started, created = advance(codes, pcs, started, u, created)
         acc.append(u)
     return acc
 
@@ -214,6 +283,7 @@ class Runner(object):
         self.U = [Unit() for _ in self.codes]
         self.ids = {}
         self.keep = []
+        self.H = {}          # handle (occurrence id) -> Action object, shared by all units
         self.trace = []
         self.log = []
         self.problems = []
@@ -231,7 +301,7 @@ class Runner(object):
 
         U = self.U[u]
         before = current_action()
-        exp_before = U.acts[-1] if U.acts else U.base
+        exp_before = U.acts[-1][0] if U.acts else U.base
         rec = dict(u=u, ok=True, before=self.aid(before), exp_before=self.aid(exp_before))
         try:
             op = st[0]
@@ -240,13 +310,30 @@ class Runner(object):
                 self.ids[id(a)] = st[1]
                 self.keep.append(a)
                 self.log.append(dict(unit=u, occ=st[1], kind="start", parent=self.aid(before)))
+                self.H[st[1]] = a
                 a.__enter__()
-                U.acts.append(a)
+                U.acts.append((a, a))
+            elif op == "create":
+                a = start_action(action_type="act", occ=st[1], unit=u)
+                self.ids[id(a)] = st[1]
+                self.keep.append(a)
+                self.log.append(dict(unit=u, occ=st[1], kind="start", parent=self.aid(before)))
+                self.H[st[1]] = a
+            elif op == "with":            # `with action_h:` on an action created by another unit
+                a = self.H[st[1]]
+                a.__enter__()
+                U.acts.append((a, a))
+            elif op == "ctx":             # `with action_h.context():`
+                a = self.H[st[1]]
+                cm = a.context()
+                cm.__enter__()
+                U.acts.append((a, cm))
             elif op == "exit":
                 if U.acts:
-                    a = U.acts.pop()
-                    self.log.append(dict(unit=u, occ=self.aid(a), kind="end", parent=self.aid(a)))
-                    a.__exit__(None, None, None)
+                    a, cm = U.acts.pop()
+                    if cm is a:
+                        self.log.append(dict(unit=u, occ=self.aid(a), kind="end", parent=self.aid(a)))
+                    cm.__exit__(None, None, None)
             elif op == "log":
                 self.log.append(dict(unit=u, occ=st[1], kind="msg", parent=self.aid(before)))
                 log_message(message_type="msg", occ=st[1], unit=u)
@@ -275,7 +362,7 @@ class Runner(object):
             rec["raised"] = type(e).__name__
         after = current_action()
         rec["after"] = self.aid(after)
-        rec["exp_after"] = self.aid(U.acts[-1] if U.acts else U.base)
+        rec["exp_after"] = self.aid(U.acts[-1][0] if U.acts else U.base)
         self.trace.append(rec)
         return rec
 
@@ -317,6 +404,8 @@ class Runner(object):
         if st[0] == "join":
             V = self.U[st[1]]
             return V.started and V.pc >= len(self.codes[st[1]])
+        if st[0] in ("with", "ctx"):
+            return st[1] in self.H     # the handle has been handed over (the action exists)
         return True
 
     async def drive(self):
@@ -525,7 +614,9 @@ def evaluate(ctx, cases, tag):
                               key={"component": "sequential"})
         real = run_real(c)
         nt = preempted_inside_action(c, real["trace"])
-        ctx.case(strip(c), nontrivial=nt, tags=[tag, "family:" + c["family"], "units:%d" % len(c["codes"])])
+        uses = {st[0] for code in c["codes"] for st in code}
+        ctx.case(strip(c), nontrivial=nt, tags=[tag, "family:" + c["family"], "units:%d" % len(c["codes"])]
+                 + (["shared:context()"] if "ctx" in uses else []) + (["shared:with"] if "with" in uses else []))
         ctx.count("steps", n=sum(1 for t in real["trace"] if t.get("ok")))
         ctx.count("stutters", n=sum(1 for t in real["trace"] if not t.get("ok")))
         oracle(ctx, c, real, seq_cache[key])
@@ -581,6 +672,15 @@ def small_programs():
                                  [["enter", 11], ["log", 12], ["exit"]]], kinds=[k0, kind], family=fam))
         progs.append(dict(codes=[[[kind, 1], ["enter", 1], ["log", 2], ["exit"], ["join", 1]],
                                  [["enter", 11], ["enter", 12], ["exit"], ["exit"]]], kinds=[k0, kind], family=fam))
+        # two units run overlapping `with shared.context():` blocks on the SAME Action, each from inside its own action
+        progs.append(dict(codes=[[["enter", 1], [kind, 1], [kind, 2], ["join", 1], ["join", 2], ["exit"]],
+                                 [["enter", 11], ["ctx", 1], ["exit"], ["log", 13], ["exit"]],
+                                 [["enter", 21], ["ctx", 1], ["exit"], ["log", 23], ["exit"]]], kinds=[k0, kind, kind], family=fam))
+        # an action created in one unit and entered with `with` in another one
+        progs.append(dict(codes=[[["enter", 1], [kind, 1], ["create", 5], ["log", 2], ["join", 1], ["exit"]],
+                                 [["enter", 11], ["with", 5], ["log", 12], ["exit"], ["log", 13], ["exit"]]], kinds=[k0, kind], family=fam))
+        progs.append(dict(codes=[[["enter", 1], ["create", 5], [kind, 1], ["join", 1], ["exit"]],
+                                 [["with", 5], ["log", 12], ["exit"], ["log", 13]]], kinds=[k0, kind], family=fam))
     return progs
 
 
@@ -589,7 +689,11 @@ def run(ctx):
     # exhaustive part
     cases = []
     for p in small_programs():
-        for sc in all_schedules(p["codes"], 400):
+        scs = all_schedules(p["codes"], 20000)
+        cap = ctx.budget(150, 5000)
+        if len(scs) > cap:       # too many interleavings: a seeded sample of them
+            scs = rng.sample(scs, cap)
+        for sc in scs:
             cases.append(dict(p, sched=sc))
     evaluate(ctx, cases, "exhaustive")
     ctx.count("exhaustive_schedules", n=len(cases))
